@@ -57,6 +57,29 @@ def run(rep, tier, seed):
         vol_bytes = int(conf[2].split()[2]) * int(conf[2].split()[1])
         s += ["dump %d %d" % (vol_bytes, conf[1] - vol_bytes)]
         scripts.append(s); metas.append((conf, vol_bytes))
+    # volumes whose padding FAT entries are zero (as other formatters leave them), odd and even cluster counts, filled to the
+    # last cluster and asked for more, in the same and in a fresh session: nothing may land behind the last cluster
+    import fatimg
+    for ts in ((401, 402, 403) if tier == "quick" else range(396, 412)):
+        o = vlib.exec_raw(["fmtbs"], "512 %d 512 12 32 2 - - -\n" % ts).split("\n")[0].split(" ")
+        if o[0] != "ok":
+            continue
+        gm = fatimg.Geom(bytes.fromhex(o[-1]))
+        fb = gm.spf * gm.bps
+        first_pad = gm.clusters + 2
+        pad_off = first_pad + first_pad // 2
+        size = ts * 512 + 8192
+        fmt = "format 512 %d 512 12 32 2 - - -" % ts
+        zero = ["fillrange %d %d 0" % (gm.fat_off + k * fb + pad_off, fb - pad_off) for k in range(gm.fats)]
+        hx = sessions.hexs
+        s = ["dev %d 209" % size, "wlog 0", fmt] + zero + ["pages", "wlog 1", "mount 1 0 lossy",
+             "create_file 0 %s 1" % hx("takes everything.bin"), "write_pat 1 %d 3" % (ts * 512), "drop_file 1",
+             "create_file 0 %s 2" % hx("one more.bin"), "write_pat 2 512 4", "drop_file 2", "create_dir 0 %s 0" % hx("one more dir"),
+             "drop_all", "unmount", "mount 1 0 lossy",
+             "create_file 0 %s 3" % hx("fresh session.bin"), "write_pat 3 700 5", "drop_file 3", "create_dir 0 %s 0" % hx("fresh dir"),
+             "remove 0 %s" % hx("takes everything.bin"), "create_file 0 %s 4" % hx("after remove.bin"), "write_pat 4 1500 6", "drop_file 4",
+             "drop_all", "unmount", "dump %d %d" % (ts * 512, size - ts * 512)]
+        scripts.append(s); metas.append((("fat12-zeropad-%d" % ts, size, fmt), ts * 512))
     judged = sessions.run_judged(scripts, flags=("tree", "regions"), shards=16)
     nwrites = 0
     kinds = {}
